@@ -962,6 +962,60 @@ def attach_search(ctx, shim, r, nfonts, ntexts):
                          "non-trivial = number of anchor pairs checked")
 
 
+import _c07_target as tg
+
+
+def target_search(ctx, shim, r, nfonts, ntexts):
+    """the search for the attachment target: GDEF classes independent of the coverages, lookup flags, mark filtering
+    sets, several subtables / lookups, marks inside and after real ligatures, default ignorables in between.
+    The expected target is computed by tg.expected() from the recipe alone."""
+    groups, meta = [], []
+    for f in range(nfonts):
+        cursive = f % 6 == 5
+        rec, sem = tg.target_font(r, cursive=cursive)
+        if cursive:          # one cursive lookup: no competing links
+            rec["gpos"]["lookups"] = rec["gpos"]["lookups"][:1]; sem["lookups"] = sem["lookups"][:1]
+            rec["gpos"]["features"][0]["lookups"] = [0]
+        lines = [f"font T{f} {fontbuild.hexfont(rec)}", f"font U{f} {fontbuild.hexfont(tg.stripped(rec))}"]
+        ms = []
+        for _ in range(ntexts):
+            text = tg.target_text(r, sem)
+            d = r.choice(DIRS)
+            flags = tg.PRESERVE_DI if r.chance(2, 3) else 0
+            lines += [tg.shape_req(f"T{f}", d, text, flags), tg.shape_req(f"U{f}", d, text, flags)]
+            ms.append((text, d, flags))
+        lines += [f"fontdrop T{f}", f"fontdrop U{f}"]
+        groups.append(lines); meta.append((rec, sem, ms))
+    outs = vlib.run_groups(shim, groups, timeout=900)
+    stats = {"shapes": 0, "attached": 0, "attached_non_mark": 0, "default_ignorable_between": 0, "with_ligature": 0,
+             "mark_inside_ligature": 0, "cursive_cross_axis_only": 0,
+             "cursive_pair_with_gdef_mark(main axis not judged)": 0, "cursive_exit_reused(earlier pair not judged)": 0, "per_dir": {d: 0 for d in DIRS}}
+    bad = 0
+    for (rec, sem, ms), o, g in zip(meta, outs, groups):
+        if o[0] != "ok" or o[1] != "ok":
+            ctx.violation(f"generated target-search font rejected: {o[0]} {o[1]}", {"stage": "search", "stream": "gpos-target",
+                          "font_line": g[0][:200]}); continue
+        for t, (text, d, flags) in enumerate(ms):
+            so, s0 = o[2 + 2 * t], o[3 + 2 * t]
+            why = tg.check(sem, text, d, flags, so, s0, stats)
+            if why:
+                bad += 1
+                if bad <= 2:
+                    ctx.violation(why, {"stage": "search", "stream": "gpos-target", "font_line": g[0], "plain_font_line": g[1],
+                                        "request": g[2 + 2 * t], "plain_request": g[3 + 2 * t], "observed": so, "plain": s0,
+                                        "text": text, "dir": d, "flags": flags, "sem": sem, "recipe": rec})
+    ctx.note_search("gpos-target", stats["shapes"], stats["attached"], detail=stats,
+                    rule="generated fonts whose GDEF classes are drawn independently of the coverages (mark coverage with base / "
+                         "ligature / unclassified / default-ignorable glyphs, base coverage with marks), mark-to-base / "
+                         "mark-to-ligature / mark-to-mark lookups (1-5, 1-2 subtables each) or one cursive lookup, with random "
+                         "IgnoreBaseGlyphs / IgnoreLigatures / IgnoreMarks / mark-filtering-set / mark-attachment-type flags, "
+                         "optional GSUB ligatures (marks inside and after) x random texts with default ignorables x 4 directions "
+                         "x PRESERVE_DEFAULT_IGNORABLES on/off through shape(); the expected target of every glyph is computed "
+                         "from GDEF + flags + coverages alone; oracle: anchors of every expected attachment coincide in the pen "
+                         "model, glyphs without a target keep the offsets they have without the lookups, advances unchanged; "
+                         "non-trivial = expected attachments checked")
+
+
 def value_font(r, with_gpos=True, with_kern=True):
     adv = [0] + [r.range(300, 900) for _ in range(NG - 1)]
     rec = {"num_glyphs": NG, "cmap": "pua", "advances": adv}
@@ -1240,6 +1294,7 @@ def run(ctx):
     d3_hook_seed(ctx, shim, plans)
     mark_chain_search(ctx, shim, ctx.rng("markchain"), ctx.budget(3000, 200000))
     attach_search(ctx, shim, ctx.rng("attach"), ctx.budget(150, 10000), ctx.budget(8, 12))
+    target_search(ctx, shim, ctx.rng("target"), ctx.budget(240, 12000), ctx.budget(10, 12))
     value_search(ctx, shim, ctx.rng("value"), ctx.budget(150, 10000), ctx.budget(8, 12), plans)
     # the one remaining known finding last, so that it never uses up the violation budget of the streams above
     btt_hook_witness(ctx, shim)
@@ -1261,6 +1316,11 @@ def replay(ctx, rp):
         o = vlib.run_groups(shim, [[rp["font_line"], rp["request"]]], nproc=1)[0]
         why = check_attach(intkeys(rp["sem"]), rp["text"], rp["dir"], o[1])
         print("reply:", o[1]); print("oracle:", why or "all anchors coincide")
+        return 1 if why else 0
+    if stream == "gpos-target" and "sem" in rp:
+        o = vlib.run_groups(shim, [[rp["font_line"], rp["plain_font_line"], rp["request"], rp["plain_request"]]], nproc=1)[0]
+        why = tg.check(intkeys(rp["sem"]), rp["text"], rp["dir"], rp["flags"], o[2], o[3])
+        print("font :", o[2]); print("plain:", o[3]); print("oracle:", why or "every expected attachment holds")
         return 1 if why else 0
     if stream == "value-shape" and "sem" in rp:
         o = vlib.run_groups(shim, [[rp["font_line"], rp["plain_font_line"], rp["request"], rp["plain_request"]]], nproc=1)[0]
